@@ -77,7 +77,7 @@ fn c03_single_writer_and_ids() {
     core::mem::forget(tr);
 }
 
-// @harness props=C03,C20 tier=quick timeout=1800 mem=16 stubbing=1 replay=scenario:close
+// @harness props=C03,C20 tier=quick timeout=1800 mem=16 stubbing=1 replay=scenario:close optcover=blocks
 // @desc deferred close hand-off between Database drop (defer_close_if_write_transaction_live) and the end of the live write transaction (end_write_transaction), in both orders, with and without a live writer: exactly one side ends up owning the close - with a live writer the drop defers (returns true) and the writer's end returns the memory to close; without one the drop keeps the close (returns false) and a later end returns nothing
 // @functions TransactionTracker::{defer_close_if_write_transaction_live,end_write_transaction,start_write_transaction}
 // @bound one writer, one Database drop, both interleavings of the two critical sections
